@@ -41,7 +41,7 @@ def main():
             ok = r.returncode == 1 and bool(viol)
             rows.append(dict(property=prop, commit=commit, what=what[:160], result='caught' if ok else 'MISSED', exit=r.returncode,
                              violations=len(viol), suite=s.stdout.strip()[-60:]))
-            print('%s %s %s exit=%d violations=%d suite=[%s] %s' % (prop, commit, 'caught' if ok else 'MISSED', r.returncode, len(viol),
+            print('%s %s %s exit=%d violations=%d suite=[%s] %s' % (prop, commit, 'CAUGHT' if ok else 'MISSED', r.returncode, len(viol),
                                                                      s.stdout.strip()[-40:], what[:70]))
         finally:
             sh('git -C /repo worktree remove --force %s' % wt)
